@@ -122,14 +122,27 @@ func expectFor(e ctxExpect, shape, tok string, ipLast int) ctxObs {
 		o.Params = append(o.Params, sub(p))
 	}
 	o.Host = tok + ".example"
+	if e.Host == "static" {
+		o.Host = "static.example"
+	}
 	o.Remote = fmt.Sprintf("192.0.2.%d", ipLast)
 	o.Route = "-"
 	o.Path = map[string]string{"direct": "/p/", "tsr": "/i/", "redirect": "/r/", "noroute": "/nope/", "nomethod": "/p/", "options": "/p/",
-		"lookup": "/p/", "lookupclone": "/p/", "clonewith": "/p/", "clone": "/p/"}[shape] + tok
+		"lookup": "/p/", "lookupclone": "/p/", "clonewith": "/p/", "clone": "/p/",
+		"tsrclone": "/ic/", "hostdirect": "/hd/", "hosttsr": "/hi/", "statichost": "/hs/"}[shape] + tok
 	if e.Route == "pattern" {
 		o.Route = "/p/{x}"
-		if shape == "tsr" {
+		switch shape {
+		case "tsr":
 			o.Route = "/i/{x}/"
+		case "tsrclone":
+			o.Route = "/ic/{x}/"
+		case "hostdirect":
+			o.Route = "{h}.example/hd/{x}"
+		case "hosttsr":
+			o.Route = "{h}.example/hi/{x}/"
+		case "statichost":
+			o.Route = "static.example/hs/{x}"
 		}
 	}
 	return o
@@ -234,6 +247,29 @@ func (cr *ctxReplayer) runSeq(v ctxVec, run string) {
 	rt.MustHandle("GET", "/w/{x}", hCloneWith)
 	rt.MustHandle("GET", "/m/{y}", hManual(false))
 	rt.MustHandle("GET", "/mc/{y}", hManual(true))
+	rt.MustHandle("GET", "/ic/{x}/", hClone, fox.WithIgnoreTrailingSlash(true))
+	rt.MustHandle("GET", "{h}.example/hd/{x}", h)
+	rt.MustHandle("GET", "{h}.example/hi/{x}/", h, fox.WithIgnoreTrailingSlash(true))
+	// a route below a static hostname: its handler routes another request by hand, through the hostname tree, while
+	// its own context is in use; what it observes of its own request must be the same before and after
+	rt.MustHandle("GET", "static.example/hs/{x}", func(c fox.Context) {
+		before := observeCtx(c)
+		for _, target := range []string{"/hd/", "/hi/", "/p/"} {
+			inner, _ := newRequest("GET", "other"+cur+".example", target+"other"+cur, "q=other"+cur)
+			if _, cc, _ := c.Fox().Lookup(c.Writer(), inner); cc != nil {
+				_ = observeCtx(cc)
+				cc.Close()
+			}
+		}
+		after := observeCtx(c)
+		if !sameObs(before, after) {
+			after.Err = "the handler's own context changed while it routed another request by hand"
+			obsNow = &after
+		} else {
+			obsNow = &before
+		}
+		dirty(c, cur)
+	})
 	var kept []keptClone
 	var shapes []string
 	for i, st := range v.Steps {
@@ -264,8 +300,20 @@ func (cr *ctxReplayer) runSeq(v ctxVec, run string) {
 			path = "/w/" + cur
 		case "clone":
 			path = "/c/" + cur
+		case "tsrclone":
+			path = "/ic/" + cur
+		case "hostdirect":
+			path = "/hd/" + cur
+		case "hosttsr":
+			path = "/hi/" + cur
+		case "statichost":
+			path = "/hs/" + cur
 		}
-		req, _ := newRequest(method, cur+".example", path, "q="+cur)
+		host := cur + ".example"
+		if st.Shape == "statichost" {
+			host = "static.example"
+		}
+		req, _ := newRequest(method, host, path, "q="+cur)
 		req.Header.Set("X-Req", cur)
 		req.RemoteAddr = fmt.Sprintf("192.0.2.%d:4000", 10+i)
 		obsNow, cloneNow, cloneObs = nil, nil, nil
